@@ -5,7 +5,22 @@ import os
 
 VERIF = os.path.dirname(os.path.dirname(os.path.abspath(__file__)))
 
+ARENA_TEXT = ("proved in Coq for every state satisfying the arena invariant, every history of the arena model and every behaviour of the "
+              "global allocator / sizing policy; the model is tied to /repo on every run by differential execution (extracted model vs. the real "
+              "crate, debug and release builds, padded and unpadded binaries, 5 MIN_ALIGNs, fault plans, address adversary) and the extracted spec "
+              "predicates of ArenaSpec.v are evaluated on the implementation's own observations. ")
+
 CLAIMED = {
+    "C01": {
+        "technique": "Coq proof (safety invariant preserved by every operation, induction over histories) + model/implementation correspondence",
+        "text": "C01_any_state / C01_reachable / C01_zst: every block handed out is non-null, inside the data part of a held chunk and disjoint from every live or reserved block; " + ARENA_TEXT + "Partial: the finger rewind of a failed *_try_with initialiser is excluded from the theorem (no_rewind) and covered by correspondence + sp_block_ok on the implementation only.",
+        "design_ref": "DESIGN.md §6 C01",
+    },
+    "C04": {
+        "technique": "Coq proof (alignment part of the safety invariant; generated obligation on the crate's constants) + model/implementation correspondence",
+        "text": "C04_aligned / C04_finger_aligned / C04_actual_cfg_ok / C04_ctor_refuses: every pointer handed out is aligned to the request and to MIN_ALIGN; the constants exported by the built crate are re-checked on every run (ConstsActualOk.v); constructors refuse exactly the unsupported MIN_ALIGN values (checked against the real constructors for 16 values of MIN_ALIGN). " + ARENA_TEXT,
+        "design_ref": "DESIGN.md §6 C04",
+    },
     "C08": {
         "technique": "Coq proof (invariant by induction over operation histories) + model/implementation correspondence",
         "text": "Theorems C08_accounting / C08_zero_when_nothing_held / C08_changes_only_on_acquire_release are proved in Coq for every history of the arena model and every behaviour of the global allocator; the model is tied to /repo on every run by differential execution (extracted model vs. the real crate, debug and release, 5 MIN_ALIGNs) and the extracted spec predicate sp_accounting is evaluated on the implementation's own getters against the tracking allocator's ledger.",
@@ -48,7 +63,7 @@ def main():
             "guard": "bumpalo_verif",
             "enable": "RUSTFLAGS=\"--cfg bumpalo_verif\" (set by tools/bvlib.py for the harness builds)",
             "baseline_off_cmd": "cd /repo && cargo test --workspace --no-fail-fast --offline",
-            "source_commits": ["78e78dd"],
+            "source_commits": ["78e78dd", "75664ef"],
             "add_only": True,
         },
         "engines": [
